@@ -362,7 +362,9 @@ func (d *TCPDialer) tryDial(
 	defer cancelCtx()
 	conn, err := dialer.DialContext(ctx, network, addr)
 	if err != nil {
-		if ctx.Err() == context.DeadlineExceeded {
+		// The connect deadline of the socket may fire a moment before the
+		// context notices its own deadline, so also check the clock.
+		if ctx.Err() == context.DeadlineExceeded || !time.Now().Before(deadline) {
 			return nil, wrapDialWithUpstream(ErrDialTimeout, addr)
 		}
 		return nil, wrapDialWithUpstream(err, addr)
